@@ -60,6 +60,18 @@ IdxRange == 9   \* indices -1 .. 7
 ASSUME TLCSet(8, Norm([k \in 1..Len(IdxCalls) |-> Parse(IdxCalls[k])]))
 ASSUME TLCSet(9, Norm([k \in 1..Len(IdxSeqs) |-> Parse(IdxSeqs[k])]))
 
+\* path sweeps: the nested-access builtins on maps / vectors with missing, nil-valued and non-collection levels,
+\* with every path of a small family (keys, indices, mixed, non-keys)
+PathColls == <<"{:a nil}", "{:a {:b 1}}", "{:a {:b nil}}", "{}", "{:a 1}", "nil", "[nil]", "[[1 2] {:a 3}]",
+               "{:a [1 {:b 2}]}", "{\"a\" {:b 1} :a {\"b\" 2}}", "{:a {}}", "[]", "{:a false}">>
+PathPaths == <<"[]", "[:a]", "[:a :b]", "[:a :b :c]", "[:b :a]", "[0]", "[0 1]", "[1 :a]", "[:a 1 :b]", "[:a 0]",
+               "[\"a\" :b]", "[:a \"b\"]", "[:c 7]", "[nil]", "(:a :b)", "[:a nil]">>
+PathCalls == <<"(get-in _S _I)", "(assoc-in _S _I 9)", "(update-in _S _I list)", "(assoc-in _S _I nil)",
+               "(update-in _S _I inc)", "(update-in _S _I (fn [x] (if (nil? x) :none x)))">>
+ASSUME TLCSet(10, Norm([k \in 1..Len(PathCalls) |-> Parse(PathCalls[k])]))
+ASSUME TLCSet(11, Norm([k \in 1..Len(PathColls) |-> Parse(PathColls[k])]))
+ASSUME TLCSet(12, Norm([k \in 1..Len(PathPaths) |-> Parse(PathPaths[k])]))
+
 VARIABLES b, ar, idx, ph
 
 Init == /\ ph = 0
@@ -68,6 +80,7 @@ Init == /\ ph = 0
            \/ Pool3 > 0 /\ MaxAr < 3 /\ ar = 3 /\ idx \in 0..(Pow(Pool3, 3) - 1)
            \/ Pure2 > 0 /\ ar = -2 /\ idx \in 0..(Len(P2A) * Pure2 * Pure2 * 2 - 1)
            \/ b <= Len(IdxCalls) /\ ar = -3 /\ idx \in 0..(Len(IdxSeqs) * IdxRange * IdxRange - 1)
+           \/ b <= Len(PathCalls) /\ ar = -4 /\ idx \in 0..(Len(PathColls) * Len(PathPaths) - 1)
 
 Resolve(a) == IF a.t = "fnref" THEN Lookup(Base.envs, 1, a.s).v
               ELSE IF a.t = "fnform" THEN Ev(a.xs[1], 1, Base).v ELSE a
@@ -114,8 +127,25 @@ IdxCase ==
   IN [kind |-> "prog", tag |-> "idx:" \o form.xs[1].s, name |-> form.xs[1].s, forms |-> <<form>>, src |-> PrStr(form),
       allow |-> [k |-> r.k, v |-> Abstract(r.v, r.st), eff |-> <<>>, g |-> <<>>]]
 
+\* _S is the (quoted) collection, _I the (quoted) path
+RECURSIVE SubstPath(_, _, _)
+SubstPath(t, sv, pv) ==
+  IF t.t = "sym" /\ t.s = "_S" THEN ListV(<<SymV("quote"), sv>>)
+  ELSE IF t.t = "sym" /\ t.s = "_I" THEN ListV(<<SymV("quote"), pv>>)
+  ELSE IF t.t = "list" THEN [t EXCEPT !.xs = [k \in 1..Len(t.xs) |-> SubstPath(t.xs[k], sv, pv)]]
+  ELSE t
+PathCase ==
+  LET ns == Len(PathColls)
+      is == (idx % ns) + 1
+      ip == (idx \div ns) + 1
+      form == SubstPath(TLCGet(10)[b], TLCGet(11)[is], TLCGet(12)[ip])
+      r == Ev(form, 1, Base)
+  IN [kind |-> "prog", tag |-> "path:" \o form.xs[1].s, name |-> form.xs[1].s, forms |-> <<form>>, src |-> PrStr(form),
+      allow |-> [k |-> r.k, v |-> Abstract(r.v, r.st), eff |-> <<>>, g |-> <<>>]]
+
 Next == /\ ph = 0 /\ ph' = 1 /\ UNCHANGED <<b, ar, idx>>
-        /\ IF ar = -3 THEN PrintT("CASE " \o ToJson(IdxCase)) ELSE
+        /\ IF ar = -4 THEN PrintT("CASE " \o ToJson(PathCase)) ELSE
+           IF ar = -3 THEN PrintT("CASE " \o ToJson(IdxCase)) ELSE
            IF ar = -2 THEN PrintT("CASE " \o ToJson(PureCase)) ELSE
             LET pool == TLCGet(3)
                base == IF ar = 3 /\ MaxAr < 3 THEN Pool3 ELSE NP
